@@ -152,6 +152,10 @@ func (f *decompressor) step() (err error) {
 	f.state.rOffset(startInputSize, startBitsLen)
 
 	if isError(err) || (err == errEndInput && f.eof) {
+		if state.bitsLen < 0 {
+			// the parser gave up past the end of what it had: no look-ahead byte is held
+			state.bitsLen = 0
+		}
 		discardSize := f.peekSize - len(f.state.input) - int(state.bitsLen/8)
 		if discardSize > 0 {
 			_, err := f.rBuf.Discard(discardSize)
